@@ -26,6 +26,9 @@ def _copy_tree(dst, with_tests):
 
 
 def _apply(dst, fn, old, new):
+    if fn == "patch":
+        r = subprocess.run(["patch", "-p1", "-s", "-i", os.path.join(VERIF, "bsim", "mutant_patches", old)], cwd=dst, capture_output=True, text=True)
+        return r.returncode == 0
     p = os.path.join(dst, fn)
     s = open(p).read()
     if s.count(old) != 1:
